@@ -60,6 +60,21 @@ theorem c03_gen_snapshot (withTime withExp withRef : Bool) (nanos e r : BitVec 6
     Gen.CacheRead.cache_nodeToEntry_a3 Gen.CacheRead.cache_nodeToEntry_a4 Gen.CacheRead.cache_nodeToEntry_a5
   refine ⟨rfl, ?_, ?_⟩ <;> (congr 1)
 
+/-! ### C11: which reads hand a reload to the executor -/
+
+/-- C11: the model's staleness test is the spec's (`cfg.withRefresh && e.staleAt now`, Spec.Check.isStale): a read of a fresh
+    entry triggers nothing, a read at or after the refresh deadline does -/
+theorem c11_isStale_refines (c : Cfg) (n : TNode) (now : Int) :
+    isStale (cfgOf c) n now = (c.withRefresh && (absN n).staleAt now) := rfl
+
+/-- C11: the model's test is the code's: `c.withRefresh && n.RefreshableAt() <= nowNano && n.IsAlive()` (signed comparison),
+    for the mapped (alive) node; a retired node is never stale whatever its deadline (F16) -/
+theorem c11_gen_isStale (withRef : Bool) (ref now : BitVec 64) :
+    Gen.CacheRead.cache_isStale_r0 withRef true ref now = (withRef && decide (ref.toInt ≤ now.toInt)) ∧
+    Gen.CacheRead.cache_isStale_r0 withRef false ref now = false := by
+  unfold Gen.CacheRead.cache_isStale_r0
+  simp [BitVec.sle]
+
 /-! ### non-vacuity -/
 example : Unreach (cfgOf { expiry := .writing 10 }) { key := 1, val := 7, weight := 1, exp := 10, ref := maxI64 } := by
   refine ⟨?_, ?_⟩ <;> intro h <;> first | rfl | (simp [cfgOf, Cfg.withExpiry] at h)
